@@ -7,7 +7,8 @@ props = [json.loads(l)['id'] for l in open(os.path.join(ROOT, 'properties.jsonl'
 checks, na = [], []
 for pid in props:
   path = os.path.join(ROOT, 'vf', 'props', pid.lower() + '.py')
-  if not os.path.exists(path):
+  ready = open(os.path.join(ROOT, 'vf', 'props', 'READY')).read().split()
+  if not os.path.exists(path) or pid not in ready:
     na.append(dict(property_id=pid, reason='check not built yet (runtime monitoring applies; see DESIGN.md section 3)'))
     continue
   src = open(path).read()
